@@ -458,6 +458,13 @@ def d1_13(ctx):
     path_and_reply_witnesses(ctx, ("tag-path", "reply"))
 
 
+@rule("C14", "D14.13", "T-WITNESS", floor=6)
+def d14_13(ctx):
+    """request_path folded on witness class / instance / attribute values (incl. instance 0 and bytes values): the segments a
+    generic message is addressed with, in order, with the word-count prefix."""
+    path_and_reply_witnesses(ctx, ("request-path",))
+
+
 def path_and_reply_witnesses(ctx, parts):
     """tag_request_path and parse_read_reply folded on witnesses (segment constructors, the path encoder and the type's
     decoder are markers that carry their arguments): a tag string addresses base [indices] then each member [its own
@@ -503,7 +510,10 @@ def path_and_reply_witnesses(ctx, parts):
         L = lambda v, t: ("L", v, t)  # noqa: E731
         for label, args, want in (("class and instance", (b"\x02", 1), [L(b"\x02", "class_id"), L(1, "instance_id")]), ("class, instance, attribute", (0x8D, 3, 7), [L(0x8D, "class_id"), L(3, "instance_id"), L(7, "attribute_id")]),
                                   ("bytes attribute", (b"\x6b", b"\x05\x00", b"\x01"), [L(b"\x6b", "class_id"), L(b"\x05\x00", "instance_id"), L(b"\x01", "attribute_id")]),
-                                  ("empty attribute", (b"\xac", 1, b""), [L(b"\xac", "class_id"), L(1, "instance_id")])):
+                                  ("empty attribute", (b"\xac", 1, b""), [L(b"\xac", "class_id"), L(1, "instance_id")]),
+                                  ("instance 0 (class-level addressing)", (0x6B, 0), [L(0x6B, "class_id"), L(0, "instance_id")]),
+                                  ("instance 0 with an attribute", (b"\x02", 0, 7), [L(b"\x02", "class_id"), L(0, "instance_id"), L(7, "attribute_id")]),
+                                  ("class 0", (0, 1), [L(0, "class_id"), L(1, "instance_id")])):
             env = dict(zip(q, args))
             if len(args) < len(q):
                 d_ = rq.node.args.defaults
